@@ -1289,6 +1289,58 @@ fn hunt(cfg: &Value) -> Value {
         // sub: every subset with 2..kmax elements of the words up to maxlen
         _ => (2..=kmax).flat_map(|k| combos(base.len(), k)).collect(),
     };
+    // rand: uniformly drawn subsets (3..=7 words) of the words up to maxlen+1, one xorshift stream per thread, until the
+    // budget is used; finds inputs of rate >= 1e-5 within seconds (seed C02f: a printing rule wrong for one shape of
+    // five related words of length <= 4)
+    if family == "rand" {
+        let seed0 = cfg["seed"].as_u64().unwrap_or(1);
+        std::thread::scope(|sc| {
+            for th in 0..nthreads {
+                let (ext, f, eng, hits, count, oracle) = (&ext, &f, &eng, &hits, &count, &oracle);
+                sc.spawn(move || {
+                    let mut x: u64 = seed0.wrapping_mul(0x9E3779B97F4A7C15).wrapping_add(th as u64 + 1) | 1;
+                    let mut next = move || {
+                        x ^= x << 13;
+                        x ^= x >> 7;
+                        x ^= x << 17;
+                        x
+                    };
+                    while t0.elapsed() < budget {
+                        let k = 3 + (next() % 5) as usize;
+                        let mut tcs: Vec<String> = vec![];
+                        while tcs.len() < k {
+                            // shorter words more often: length class first, then a word of that class
+                            let w = &ext[(next() % ext.len() as u64) as usize];
+                            let w = if next() % 3 == 0 { w[..w.len().min(1 + (next() % 3) as usize)].to_string() } else { w.clone() };
+                            if !tcs.contains(&w) {
+                                tcs.push(w);
+                            }
+                        }
+                        count.fetch_add(1, std::sync::atomic::Ordering::Relaxed);
+                        let r = catch_unwind(AssertUnwindSafe(|| hunt_judge(&tcs, f, oracle, eng)))
+                            .unwrap_or_else(|e| Some(format!("harness panic: {}", panic_msg(e))));
+                        if let Some(kind) = r {
+                            let mut h = hits.lock().unwrap();
+                            h.push((tcs, kind));
+                            if h.len() >= max_hits {
+                                break;
+                            }
+                        }
+                        if hits.lock().unwrap().len() >= max_hits {
+                            break;
+                        }
+                    }
+                });
+            }
+        });
+        let hits = hits.into_inner().unwrap();
+        return json!({
+            "family": family, "alpha": alpha.iter().collect::<String>(), "oracle": oracle, "f": cfg["f"], "mr": f.mr, "ms": f.ms,
+            "maxlen": maxlen, "evaluated": count.load(std::sync::atomic::Ordering::SeqCst), "exhaustive": false,
+            "elapsed_s": t0.elapsed().as_secs_f64(),
+            "hits": hits.iter().map(|(tcs, kind)| json!({"tcs": tcs.iter().map(|t| cps(t)).collect::<Vec<_>>(), "kind": kind})).collect::<Vec<_>>(),
+        });
+    }
     let total_outer = outer.len();
     let done_outer = std::sync::atomic::AtomicUsize::new(0);
     std::thread::scope(|sc| {
